@@ -100,6 +100,9 @@ def Quiescent (s : State V) : Prop :=
   s.j.snapped = true ∧ s.j.defer = [] ∧ s.j.down = [] ∧ s.j.p.dirty = false ∧ s.j.p.queue = [] ∧
   s.host.p.dirty = false ∧ s.host.p.queue = []
 
+instance decQuiescent (s : State V) : Decidable (Quiescent s) := by
+  unfold Quiescent; infer_instance
+
 /-- what the joiner will hold (replica present?, component value) once `l` has been handled -/
 def evStep : Bool × Option V → Msg V → Bool × Option V
   | (b, x), .spawn => (true, if b then x else none)
